@@ -110,6 +110,11 @@ TStep ==
      /\ ChkT(tr, l + 1, "object table shrank", Len(post) >= Len(heap))
      /\ \A o \in 1..Len(heap) :
           (EnfISO /\ o # target) =>
+            \* known finding: the file pncexpr returns wraps the variables of its input
+            IF e.act = "writeall" /\ "derived" \in DOMAIN e.args
+               /\ (\E q \in 1..Len(e.args.derived.wraps) : e.args.derived.wraps[q] = o) /\ post[o] # heap[o]
+            THEN TrKnown(tr, "C05_K1_pncexpr_shares_variables")
+            ELSE
             ChkS(tr, l + 1, "C05 " \o e.act \o ": object " \o ToString(o) \o " was modified by the call",
                  IF post[o] = heap[o] THEN "" ELSE
                    (IF FileDiff(post[o], heap[o], "full") # "" THEN FileDiff(post[o], heap[o], "full")
